@@ -16,6 +16,8 @@ import sys
 from lib import vfmt
 
 PROPERTY = 'C10'
+import isolation as _iso
+ISOLATION = [(n, getattr(_iso, n)) for n in ['timer_queue']]      # instance-isolation obligation (harness/isolation.py)
 COMPONENT = 'timerq'
 QUICK = dict(gen=4000, exhaustive_len=4, timeout=120)
 THOROUGH = dict(gen=120000, exhaustive_len=5, timeout=900)
